@@ -27,6 +27,9 @@ def enc_val(v):
         return enc_event(v)
     if isinstance(v, list):
         return {'list': [enc_val(x) for x in v]}
+    if getattr(type(v), '_vp_cell', False):
+        # a hashable, mutable user object (created by the preamble of some generated charts)
+        return {'cell': enc_val(v.n)}
     raise Unsupported('value %r' % (v,))
 
 
